@@ -194,4 +194,20 @@ PROPS = {
         "trusted_base": ["hand transcription (trace replay each run)", "the spec predicates (originSpec, storedFollowOk, undoOk, actorIdsOf) are the ones the theorems are stated with, evaluated by the driver on the real traces"],
         "assumptions": ["hosts are compared as Go's url.URL.Host strings (no case or port normalisation) — the property's 'same host' is read that way"],
     },
+    "C02": {
+        "level": "proof",
+        "lean_modules": ["AV.Lemmas.Det", "AV.Props.C02"],
+        "support_modules": ["AV.Spec.C02", "AV.Pub.Util", "AV.Pub.SideEffect"],
+        "theorems": [
+            "AV.run_det", "AV.runD_bind", "AV.runD_try",
+            "AV.Props.C02.mem_filterPublic", "AV.Props.C02.dedupe_spec", "AV.Props.C02.deref_det", "AV.Props.C02.resolveActors_det",
+        ],
+        "translator_scope": [r"gen_lean", r"T2 failed"],
+        "runners": [{"args": ["pub-C02", "1000", "5", "graph,graph,send,graph,outbox"], "timeout": 1500}],
+        "exhaustive": {"quick": False, "thorough": False},
+        "rule": "federation graphs of 3..7 remote actors (reachable / garbled / unknown type / unreachable, any subset with an application-stored inbox) and 1..4 collections, ordered collections and pages with 0..4 random members each (nested, cyclic, containing local actors), delivery depth 1..4; bare Notes, Likes, Announces addressed through the five properties from a pool that adds both Public spellings, the sender and a dead IRI, duplicates, IRIs and embedded actors; POST and Send; single faults. "
+                "non-trivial = something was delivered; distinct by scenario hash",
+        "trusted_base": ["hand transcription (trace replay each run)", "the oracle reads the federation graph off the implementation's own Dereference answers and evaluates AV.Spec.C02.reachActors (the function of the theorem) on it"],
+        "assumptions": ["'Public is never dereferenced' is read for the addressed recipients; a Public IRI listed inside a fetched collection is fetched like any member"],
+    },
 }
